@@ -7,6 +7,42 @@ TB = ("Trusted: Lean 4.33 kernel (propext, Classical.choice, Quot.sound only); S
       "The theorems are about the Lean model; the model is tied to /repo by regenerated tables (translator) and by "
       "differential execution (harness) on every run.")
 claimed = {
+ "C07": dict(
+   text="Lean theorem history_refines: for ANY finite history of registrations and authentications (any length, any universe, any environment) against the "
+        "in-memory storage, every ceremony's outcome and the resulting storage equal those of the reference state machine id -> (owner, key) (forward simulation "
+        "step_refines + induction over the history). Consequences proved about the reference machine: failed ceremonies are stutters, authentication never changes "
+        "state, registration binds exactly (options.user.id, attested key) to the attested id, an id is never re-bound to another user, owners are stable along any "
+        "history, assertions are decided against the CURRENT binding (so after re-registration the new key), untouched ids keep their binding. The per-ceremony "
+        "decisions are those characterised by C01.auth_iff / C02.regPre_iff. Tie: random and exhaustive bounded histories run against the real RelyingParty + "
+        "InMemoryCredentialStorage, compared step by step with the reference machine and the model.",
+   ref="DESIGN.md §8 C07", technique="Lean 4 proof (refinement to an abstract map by induction over histories) + differential execution of histories"),
+ "C13": dict(
+   text="Lean theorems: the label walk accepts exactly when the RP host is non-empty and the client host equals it or ends with '.'+RP host, for ALL byte strings "
+        "(labelWalk_iff), the Go loop transcription on fuel computes the same, parent / no-boundary-suffix / prefix-label cases are rejected; at ceremony level the "
+        "origin test is equivalent to that condition on the hosts the URL parser reports, only those hosts matter (scheme, port irrelevant), unparsable and host-less "
+        "origins are rejected, the RP ID is the host of the configured origin, and both ceremonies accept only authenticator data whose RP ID hash is SHA-256 of "
+        "exactly that RP ID. Tie: ceremonies whose only variable is the origin / hashed RP ID, exhaustive label sequences, placements of the RP host inside foreign "
+        "URLs with ground truth, random strings.",
+   ref="DESIGN.md §8 C13", technique="Lean 4 proof (label walk iff over all strings) + differential execution through real ceremonies",
+   note="PARTIAL in one respect: host extraction is net/url's (oracle); its behaviour on user-info/path/query/fragment placements is exercised, not proved."),
+ "C15": dict(
+   text="Lean theorems: UnmarshalMetadataBLOBPayload (model) returns a payload iff the BLOB parses with at least one header, EVERY header's chain validates against "
+        "the CONFIGURED pool (default = embedded root; the last WithRootCA wins) and the claims verify under the leaf of the first chain, the payload being the one so "
+        "verified (blob_iff, for every environment); rejection corollaries per deviation; AAGUID text form round-trips for all 2^128 values, the other accepted "
+        "forms denote the same value, the text form is injective. Tie: differential execution on generated PKIs / JWS with 14 deviation kinds (ground truth by "
+        "construction), segment mutations, the recorded BLOB, and AAGUID strings.",
+   ref="DESIGN.md §8 C15", technique="Lean 4 proof of the composition over PKI/JWS oracles + differential execution",
+   note="PARTIAL: x509 path validation and JWS verification themselves are assumed (crypto/x509, go-jose)."),
+ "C17": dict(
+   text="Lean theorems: UnmarshalVendorID accepts exactly 'id:' + eight hexadecimal digits and returns those four bytes (vendorId_iff, all strings); the regenerated "
+        "vendor table is the reviewed one and a subset of the TCG registry plus the documented pseudo vendor; hardware details are extracted iff every string-valued "
+        "manufacturer attribute parses to a registered vendor and the last manufacturer / model / version attributes exist with non-empty model and version, returning "
+        "those values (hardwareDetails_iff); only the first context-specific [4] general name counts and the class matters; the Keymaster struct tags are pinned, all "
+        "their tag numbers occur in the published schema, and purpose / allApplications / origin are 1 / 600 / 702. Tie: vendor table, OIDs, constants and struct "
+        "tags regenerated from source; differential execution on exhaustive short strings, sampled ids, certificates with all attribute subsets/orders; key "
+        "descriptions from an independent DER encoder.",
+   ref="DESIGN.md §8 C17", technique="Lean 4 proof over regenerated tables + differential execution; KeyDescription decoding compared with ground truth",
+   note="PARTIAL: the ASN.1 layer is encoding/asn1 (oracle). Known finding D14 (NULL-typed Keymaster elements encoded as EXPLICIT NULL are not read) is listed in known_findings.json and reported as KNOWN-FINDING."),
  "C02": dict(
    text="Lean theorems: the registration model decomposes into a storage-independent decision and a storage step (reg_decompose); the decision succeeds iff "
         "every ceremony condition of the property holds and then yields the ATTESTED credential id and key (regPre_iff against Spec.RegPreOK: client-data type / "
